@@ -28,6 +28,9 @@ func (h *vHist) checkLookups(tag string, acc []bool, retained func(i int) bool) 
 			continue
 		}
 		ht := h.repo.HashHeight(h.hash[i])
+		if ht != h.height[i] {
+			verifObserve("hash-height-wrong", i, ht, h.height[i], onBest, tip)
+		}
 		verifAssert(ht == h.height[i], tag+"hash-height-wrong")
 		ch, longest, err := h.repo.CheckHeader(h.ctx, h.hash[i])
 		verifAssert(err == nil, tag+"check-header-fails-for-accepted-header")
@@ -99,10 +102,8 @@ func VerifC09Lookups() {
 	prune := verifParam("prune", 0) // scaled prune depth (0: unscaled, nothing is ever pruned)
 	h := newHist(1000)
 	acc := []bool{true}
-	if verifParam("rich", 0) == 1 {
-		for range h.richState() {
-			acc = append(acc, true)
-		}
+	for k := h.setupState(); k > 0; k-- {
+		acc = append(acc, true)
 	}
 	for s := 0; s < steps; s++ {
 		op := pick(fmt.Sprintf("op%d", s), ops)
